@@ -6,6 +6,7 @@ import (
 	"fmt"
 	"go/types"
 	"sort"
+	"strings"
 
 	"golang.org/x/tools/go/ssa"
 )
@@ -32,6 +33,11 @@ func (s *state) clone() *state {
 
 func (vc *VC) heapGet(st *state, name string) string {
 	vc.heapReads++
+	return vc.heapGetQuiet(st, name)
+}
+
+// heapGetQuiet: same, without counting as a read by the program (state merging).
+func (vc *VC) heapGetQuiet(st *state, name string) string {
 	if v, ok := st.heap[name]; ok {
 		return v
 	}
@@ -40,13 +46,60 @@ func (vc *VC) heapGet(st *state, name string) string {
 		bail("unregistered heap array %s", name)
 	}
 	init := fmt.Sprintf("%s!e%d", name, st.epoch)
-	vc.decl("heapinit:"+init, fmt.Sprintf("(declare-const %s %s)", init, srt))
+	if !vc.declSeen["heapinit:"+init] {
+		vc.decl("heapinit:"+init, fmt.Sprintf("(declare-const %s %s)", init, srt))
+		if inv := vc.ghostInvariant(name, init); inv != "" {
+			vc.decl("heapinv:"+init, "(assert "+inv+")")
+		}
+	}
 	return init
 }
 
 func (vc *VC) heapSet(st *state, name, term string) {
-	// name the new version to keep terms small
+	// Backing-array heaps are named by declared constants (not macros) so that they can appear in
+	// quantifier patterns; everything else is a definition.
+	if strings.HasPrefix(name, "Arr_") && len(vc.capStack) == 0 {
+		n := vc.fresh(name)
+		vc.emit(fmt.Sprintf("(declare-const %s %s)", n, vc.heapNames[name]))
+		vc.emit(fmt.Sprintf("(assert (= %s %s))", n, term))
+		st.heap[name] = n
+		return
+	}
 	st.heap[name] = vc.define(name, vc.heapNames[name], term)
+}
+
+// elemSortOfArr returns the element sort of a heap array name Arr_<tag>.
+func (vc *VC) elemSortOfArr(name string) (Sort, bool) {
+	if !strings.HasPrefix(name, "Arr_") {
+		return "", false
+	}
+	srt := vc.heapNames[name] // (Array Int (Array Int E))
+	const pre = "(Array Int (Array Int "
+	if !strings.HasPrefix(srt, pre) {
+		return "", false
+	}
+	return srt[len(pre) : len(srt)-2], true
+}
+
+// heapStoreRef replaces the backing array at reference ref and states, in terms of the element
+// function at(), that every other backing array is unchanged (E-matching friendly frame).
+func (vc *VC) heapStoreRef(st *state, name, ref, inner string) (oldH, newH string) {
+	oldH = vc.heapGet(st, name)
+	vc.heapSet(st, name, fmt.Sprintf("(store %s %s %s)", oldH, ref, inner))
+	newH = st.heap[name]
+	vc.atOthersUnchanged(name, newH, oldH, fmt.Sprintf("(not (= (s_arr s) %s))", ref))
+	return
+}
+
+// atOthersUnchanged: forall s j :: cond(s) ==> at(newH, s, j) == at(oldH, s, j)
+func (vc *VC) atOthersUnchanged(name, newH, oldH, cond string) {
+	es, ok := vc.elemSortOfArr(name)
+	if !ok || len(vc.capStack) > 0 {
+		return
+	}
+	an := vc.at(es, newH, "s", "j")
+	ao := vc.at(es, oldH, "s", "j")
+	vc.emit(fmt.Sprintf("(assert (forall ((s Slice) (j Int)) (! (=> %s (= %s %s)) :pattern (%s))))", cond, an, ao, an))
 }
 
 // havocAll forgets everything about the heap (call without contract).
@@ -164,13 +217,22 @@ func (fr *frame) store(a *addr, v T, st *state, pos string) {
 		es := vc.sortOf(arr.Elem())
 		h := vc.heapArr(es)
 		fr.frameCheck("frame.store", a.ref, st, pos)
-		vc.heapSet(st, h, fmt.Sprintf("(store %s %s %s)", vc.heapGet(st, h), a.ref, v.S))
+		vc.heapStoreRef(st, h, a.ref, v.S)
 	case aElem:
 		s := vc.sortOf(a.typ)
 		h := vc.heapArr(s)
 		fr.frameCheck("frame.store", a.ref, st, pos)
 		cur := vc.heapGet(st, h)
 		vc.heapSet(st, h, fmt.Sprintf("(store %s %s (store (select %s %s) %s %s))", cur, a.ref, cur, a.ref, a.pos, v.S))
+		if len(vc.capStack) == 0 {
+			// complete description of the new heap in terms of at(): exactly one position changed
+			newH := st.heap[h]
+			ref := vc.define("st_ref", "Int", a.ref)
+			pos := vc.define("st_pos", "Int", a.pos)
+			an := vc.at(s, newH, "s", "j")
+			ao := vc.at(s, cur, "s", "j")
+			vc.emit(fmt.Sprintf("(assert (forall ((s Slice) (j Int)) (! (= %s (ite (and (= (s_arr s) %s) (= (+ (s_off s) j) %s)) %s %s)) :pattern (%s))))", an, ref, pos, v.S, ao, an))
+		}
 	case aField:
 		b := fr.load(a.base, st)
 		fr.store(a.base, vc.setField(b, a.field, v), st, pos)
@@ -197,4 +259,17 @@ func sortedHeapKeys(m map[string]string) []string {
 	}
 	sort.Strings(ks)
 	return ks
+}
+
+// ghostInvariant: system invariants of the ghost I/O state, assumed for every unconstrained version:
+// a reader never consumed more than its stream holds, counters are non-negative.
+func (vc *VC) ghostInvariant(name, term string) string {
+	switch name {
+	case "G_consumed":
+		vc.declStream()
+		return fmt.Sprintf("(forall ((r Int)) (! (and (<= 0 (select %s r)) (<= (select %s r) (io.total r))) :pattern ((select %s r))))", term, term, term)
+	case "G_written":
+		return fmt.Sprintf("(forall ((r Int)) (! (<= 0 (select %s r)) :pattern ((select %s r))))", term, term)
+	}
+	return ""
 }
